@@ -93,7 +93,19 @@ pub fn read_server_log(sim: &mut Sim) {
             sim.fail("C05.payload", format!("a client event reached server logic with an altered payload: {b}"));
         }
     }
+    // (a client trigger with two targets: one observer run per target, merged into one delivery like on the client side)
+    let mut merged: Vec<(CK, u32, Entity, Option<Entity>, Option<Entity>)> = Vec::new();
     for (kind, seq, sender, ent) in new {
+        let two = sim.cemits.iter().any(|e| e.seq == seq && e.refent2.is_some());
+        if let Some(last) = merged.last_mut() {
+            if two && kind == CK::Trig && last.0 == CK::Trig && last.1 == seq && last.2 == sender && last.4.is_none() && last.3 != ent {
+                last.4 = ent;
+                continue;
+            }
+        }
+        merged.push((kind, seq, sender, ent, None));
+    }
+    for (kind, seq, sender, ent, ent2) in merged {
         *sim.delivered_c.entry(seq).or_default() += 1;
         sim.last_from.insert(sender, seq);
         if sim.drain_logs {
@@ -120,6 +132,9 @@ pub fn read_server_log(sim: &mut Sim) {
         }
         if ent != em.refent {
             sim.fail("C05.reference", format!("client event {seq} arrived with entity {ent:?}, expected {:?}", em.refent));
+        }
+        if ent2 != em.refent2 {
+            sim.fail("C05.reference", format!("client trigger {seq} arrived with second target {ent2:?}, expected {:?}", em.refent2));
         }
     }
 }
@@ -515,7 +530,10 @@ pub fn check_events_final(sim: &mut Sim) -> Result<(), Fail> {
     for kind in [CK::Ev, CK::Map, CK::Trig, CK::List] {
         let ids: BTreeSet<Entity> = sim.cemits.iter().map(|e| e.sender).collect();
         for id in ids {
-            let seqs: Vec<u32> = sim.server.world().resource::<ServerLog>().0.iter().filter(|e| e.0 == kind && e.2 == id).map(|e| e.1).collect();
+            let mut seqs: Vec<u32> = sim.server.world().resource::<ServerLog>().0.iter().filter(|e| e.0 == kind && e.2 == id).map(|e| e.1).collect();
+            if kind == CK::Trig {
+                seqs.dedup();
+            }
             if seqs.windows(2).any(|w| w[0] >= w[1]) {
                 return Err(Fail::new("C05.order", format!("server got {kind:?} events from {id} out of order: {seqs:?}")));
             }
